@@ -21,6 +21,7 @@ func init() {
 		Run:         runC14,
 		Controls: []Control{
 			{Name: "positions-read-options-forwarded-to-the-items", File: "pkg/trait/openclosepb/model.go", Old: "\t\tfor change := range m.positions.Pull(ctx) {\n", New: "\t\tfor change := range m.positions.Pull(ctx, ops...) {\n", Expect: "R14.18"},
+			{Name: "ramp-final-write-unconditional", File: "pkg/trait/lightpb/memory.go", Old: "\t\t\t\t\t\tresource.WithResetPaths(\"target_level_percent\", \"brightness_tween\"),\n\t\t\t\t\t\tresource.WithExpectedValue(lastObj),\n", New: "\t\t\t\t\t\tresource.WithResetPaths(\"target_level_percent\", \"brightness_tween\"),\n", Expect: "R14.21"},
 			{Name: "positions-forwarder-stops-on-unchanged", File: "pkg/trait/openclosepb/model.go", Old: "\t\t\tif eq(last, positions) {\n\t\t\t\tcontinue\n\t\t\t}\n", New: "\t\t\tif eq(last, positions) {\n\t\t\t\treturn\n\t\t\t}\n", Expect: "R14.17"},
 			{Name: "aggregate-pull-forwards-updates-only", File: "pkg/trait/openclosepb/model.go", Old: "\t\tfor change := range m.positions.Pull(ctx) {", New: "\t\tfor change := range m.positions.Pull(ctx, resource.WithUpdatesOnly(readRequest.UpdatesOnly)) {", Expect: "R14.12"},
 			{Name: "revert-F37-mask-on-items", File: "pkg/trait/openclosepb/model.go", Old: "\tallPositions := m.positions.List() // already sorted by ID aka Direction ordinal", New: "\tallPositions := m.positions.List(opts...) // already sorted by ID aka Direction ordinal", Expect: "R14.11"},
@@ -200,6 +201,12 @@ func fieldDecidesBranch(c *an.Ctx, fn *ssa.Function, req ssa.Value, name string,
 
 func runC14(c *an.Ctx) {
 	r1417(c, "R14.17")
+	r063as(c, "R14.23") // a masked Pull never prunes the register: the in-place Filter is only given fresh messages (shared with R06.3)
+	c.Min("R14.23", 1)
+	r1421(c, "R14.21")
+	c.Min("R14.21", 2)
+	rWriteOptsForwarded(c, "R14.22", "pkg/trait") // the caller's write options reach the register's write (shared with R19.8)
+	c.Min("R14.22", 20)
 	r1418(c, "R14.18")
 	c.Min("R14.18", 2)
 	r061as(c, "R14.19") // the projection used by every Get and Pull never writes the stored message (shared with R06.1)
@@ -1286,4 +1293,66 @@ func r1418(c *an.Ctx, rule string) {
 			"the function computes its own read configuration from its options AND passes the same options to the resource underneath: the read mask is written against the aggregate message, the items it is applied to do not have those fields and are projected to nothing")
 	}
 	c.Count("functions_interpreting_read_options", n)
+}
+
+// r1421: a write that a handler leaves behind in a goroutine (the light's brightness ramp: a ticker loop that keeps
+// writing after UpdateBrightness has answered) is made only while the register still holds what that goroutine
+// wrote last - every write in such a goroutine carries resource.WithExpectedValue / WithExpectedCheck. Without it a
+// ramp that a later Update has superseded overwrites that Update at its next tick: Get answers with a value no
+// Update produced and the open Pull streams announce it.
+func r1421(c *an.Ctx, rule string) {
+	n := 0
+	for _, fn := range c.Prog.FuncsIn("pkg/trait") {
+		if c.Prog.IsGenerated(fn.Pos()) || strings.HasSuffix(c.Prog.RelFile(fn.Pos()), "_test.go") {
+			continue
+		}
+		for _, g := range an.GoStmts(fn) {
+			tgt := an.GoTarget(g)
+			if tgt == nil {
+				continue
+			}
+			ord := 0
+			for _, f := range append([]*ssa.Function{tgt}, an.TransparentCalleesOf(tgt, 1)...) {
+				if !an.InModule(f) {
+					continue
+				}
+				an.Instrs(f, func(in ssa.Instruction) {
+					call, ok := in.(*ssa.Call)
+					if !ok {
+						return
+					}
+					cn := an.CalleeName(call)
+					if !strings.HasSuffix(cn, "pkg/resource.Value).Set") && !strings.HasSuffix(cn, "pkg/resource.Collection).Update") {
+						return
+					}
+					ord++
+					n++
+					conditional, known := false, true
+					opts := call.Call.Args[len(call.Call.Args)-1]
+					elems := variadicElems(opts)
+					if elems == nil && !an.IsNilConst(opts) {
+						known = false
+					}
+					for _, e := range elems {
+						for _, s := range an.Sources(e) {
+							if oc, isC := s.(*ssa.Call); isC {
+								on := an.CalleeName(oc)
+								if strings.HasSuffix(on, "pkg/resource.WithExpectedValue") || strings.HasSuffix(on, "pkg/resource.WithExpectedCheck") {
+									conditional = true
+								}
+							}
+						}
+					}
+					cons := fmt.Sprintf("%s|background write #%d is conditional on the value last written", an.FuncName(tgt), ord)
+					if !known {
+						c.Unk(rule, cons, call.Pos(), "the write's options are not a literal list")
+						return
+					}
+					c.Check(conditional, rule, cons, call.Pos(), "carries WithExpectedValue / WithExpectedCheck",
+						"a goroutine left behind by a handler writes the register unconditionally: a later Update that superseded it is overwritten at the next tick, so Get returns a value no Update produced")
+				})
+			}
+		}
+	}
+	c.Count("background_writes", n)
 }
